@@ -119,6 +119,7 @@ func evalCase(c *Case) (string, string) {
 	pc := wire.NewClient(v)
 	doc := refdoc.New()
 	var update, recovery, suffix string
+	var origin interface{}
 	deactivated := false
 	var anchored []*operation.AnchoredOperation
 	for i, s := range c.Steps {
@@ -225,6 +226,7 @@ func evalCase(c *Case) (string, string) {
 				doc = nd
 			}
 			update, recovery = s.NextUpdate, s.NextRecovery
+			origin = s.AnchorOrigin // the anchor origin supplied with a create / recover request takes effect too
 		case "update":
 			nd, err := refdoc.Apply(doc, s.Patches)
 			if err != nil {
@@ -242,6 +244,9 @@ func evalCase(c *Case) (string, string) {
 		}
 		if got.Err != "" {
 			return "C11/no-effect", fmt.Sprintf("%s: resolution failed after anchoring the client-built request: %s", tag, got.Err)
+		}
+		if !deactivated && !jsonEq(got.AnchorOrigin, origin) {
+			return "C11/no-effect", fmt.Sprintf("%s: the anchor origin supplied with the request did not take effect: resolved %s, supplied %s", tag, js(got.AnchorOrigin), js(origin))
 		}
 		if !refdoc.Equal(got.Doc, doc) || got.Update != update || got.Recovery != recovery || got.Deactivated != deactivated {
 			return "C11/no-effect", fmt.Sprintf("%s: anchored client-built request did not produce the intended state: document differs on %v, commitments (%s,%s) want (%s,%s), deactivated %v want %v; got doc=%s want doc=%s",
